@@ -41,10 +41,11 @@ const prelude = `(set-logic ALL)
 (define-fun nilslc () Slc (mkslc 0 0 0 0))
 (declare-fun idx (Slc Int) Int)
 (assert (forall ((s Slc) (i Int)) (! (= (idx s i) (+ (soff s) i)) :pattern ((idx s i)))))
+(declare-fun subtag (Int) Int)
 (declare-fun elemref (Int Int) Int)
 (declare-fun er_arr (Int) Int)
 (declare-fun er_idx (Int) Int)
-(assert (forall ((a Int) (i Int)) (! (and (= (er_arr (elemref a i)) a) (= (er_idx (elemref a i)) i) (not (= (elemref a i) 0))) :pattern ((elemref a i)))))
+(assert (forall ((a Int) (i Int)) (! (and (= (er_arr (elemref a i)) a) (= (er_idx (elemref a i)) i) (not (= (elemref a i) 0)) (= (subtag (elemref a i)) (- 1))) :pattern ((elemref a i)))))
 (declare-fun b2s ((Array Int Int) Int Int) Str)
 (assert (forall ((m (Array Int Int)) (o Int) (n Int)) (! (=> (>= n 0) (= (len (b2s m o n)) n)) :pattern ((b2s m o n)))))
 (assert (forall ((m (Array Int Int)) (o Int) (n Int) (i Int)) (! (=> (and (<= 0 i) (< i n)) (= (at (b2s m o n) i) (select m (+ o i)))) :pattern ((at (b2s m o n) i)))))
